@@ -286,6 +286,11 @@ func (h *faultHarness) Run(t *testing.T, ci any) *Outcome {
 					plans = append(plans, []FaultSpec{{Call: rec.Idx, Mode: "after", J: j}})
 				}
 			}
+			// the same failure reported late: the driver closes its channel first and returns the error two simulated
+			// seconds afterwards (a driver that rolls back or tears down before it returns)
+			if !c.Knobs.Direct && rec.Delivered > 0 {
+				plans = append(plans, []FaultSpec{{Call: rec.Idx, Mode: "afterlate", J: (rec.Delivered + 1) / 2}})
+			}
 		}
 		// the caller's context is cancelled while call k is in flight (at its start, or after j elements of a stream)
 		for _, rec := range base.trace {
